@@ -439,6 +439,19 @@ def apply_op(fam, m, op, state):
         Xf = f.Xf
         yf = f.yf
         m.get_fantasy_model(list(Xf) if isinstance(Xf, tuple) else Xf, yf)
+    elif op == "fantasy_selfcheck":
+        # exact fantasy model: its first predictions (default and fast-variance settings) are served from the caches injected by
+        # the update formulas; after train()/eval() they are recomputed from its own data - the same numbers
+        if m.prediction_strategy is None:
+            predict(m, f.xs)
+        fm = m.get_fantasy_model(list(f.Xf) if isinstance(f.Xf, tuple) else f.Xf, f.yf)
+        fm.eval()
+        first = [predict(fm, f.xs, cfg) for cfg in ((False, True, False, True), (True, True, False, True))]
+        fm.train()
+        fm.eval()
+        again = [predict(fm, f.xs, cfg) for cfg in ((False, True, False, True), (True, True, False, True))]
+        cat = lambda lst: (torch.cat([a_[0].reshape(-1) for a_ in lst]), torch.cat([a_[1].reshape(-1) for a_ in lst]))
+        return ("selfcheck", cat(first), cat(again))
     elif op == "var_fantasy":
         # online variational conditioning: an ExactGP over the inducing points + the new data, with injected caches; its
         # first prediction (served from the injected caches) against the one it recomputes after train()/eval()
